@@ -16,8 +16,11 @@ package main
 //   c_store_first   in every function of pkg/remoting that signals a `.Done` channel the
 //                   assignment to `.Response` comes (textually, outside the select) before
 //                   the first signal and no assignment to `.Response` follows a signal
-//   c_ids_plain     SendSyncRequest and SendAsyncRequest build their RpcMessage with
-//                   `ID: int32(client.idGenerator.Inc())` (the id function of the model)
+//   c_ids_plain     EVERY function of pkg/remoting/getty that builds an outgoing RpcMessage which
+//                   can be answered (anything but a Response or a HeartbeatRequest frame), among them
+//                   SendSyncRequest and SendAsyncRequest, uses `ID: int32(client.idGenerator.Inc())`
+//                   with `client` the remoting client (the id function and the ONE generator of the
+//                   model); the sites are listed in go_send_sites
 //
 // Anything that is not found where it is expected is reported in
 // go_futures_unrecognised (a list of strings); the proof obligation requires the
@@ -299,26 +302,64 @@ func xlateFutures(repo, out string) {
 		storeFirst = false
 	}
 
-	// ---- c_ids_plain
+	// ---- c_ids_plain: every send site that writes an ANSWERABLE request draws its id from the one
+	// generator of the remoting client (answers are matched to pending requests by id alone)
 	idsPlain := true
-	for _, fn := range []string{"SendSyncRequest", "SendAsyncRequest"} {
-		fd := futuresFindFunc(gettyFiles, "GettyRemotingClient", fn)
-		if fd == nil {
-			bad("GettyRemotingClient.%s not found", fn)
-			idsPlain = false
-			continue
-		}
-		found := false
-		ast.Inspect(fd.Body, func(n ast.Node) bool {
-			if kv, ok := n.(*ast.KeyValueExpr); ok && printNode(fset, kv.Key) == "ID" {
-				found = true
-				if printNode(fset, kv.Value) != "int32(client.idGenerator.Inc())" {
-					idsPlain = false
-				}
+	type site struct{ fn, id, typ, class string }
+	var sites2 []site
+	for _, f := range gettyFiles {
+		for _, d := range f.Decls {
+			fd, ok := d.(*ast.FuncDecl)
+			if !ok || fd.Body == nil || recvName(fd) == "RpcPackageHandler" {
+				continue // the frame reader builds RpcMessages of INBOUND frames
 			}
-			return true
-		})
-		if !found {
+			clientIsRemoting := recvName(fd) == "GettyRemotingClient" && len(fd.Recv.List[0].Names) == 1 && fd.Recv.List[0].Names[0].Name == "client"
+			ast.Inspect(fd.Body, func(n ast.Node) bool {
+				if as, ok := n.(*ast.AssignStmt); ok && len(as.Lhs) == 1 && len(as.Rhs) == 1 && printNode(fset, as.Lhs[0]) == "client" {
+					clientIsRemoting = as.Tok == token.DEFINE && printNode(fset, as.Rhs[0]) == "GetGettyRemotingClient()"
+				}
+				return true
+			})
+			ast.Inspect(fd.Body, func(n ast.Node) bool {
+				cl, ok := n.(*ast.CompositeLit)
+				if !ok || printNode(fset, cl.Type) != "message.RpcMessage" {
+					return true
+				}
+				st := site{fn: fd.Name.Name, id: "<absent>", typ: "<absent>"}
+				for _, el := range cl.Elts {
+					if kv, ok := el.(*ast.KeyValueExpr); ok {
+						switch printNode(fset, kv.Key) {
+						case "ID":
+							st.id = printNode(fset, kv.Value)
+						case "Type":
+							st.typ = printNode(fset, kv.Value)
+						}
+					}
+				}
+				switch st.typ {
+				case "message.GettyRequestTypeResponse":
+					st.class = "response"
+				case "message.GettyRequestTypeHeartbeatRequest":
+					st.class = "heartbeat"
+				default:
+					st.class = "answerable"
+					if st.id != "int32(client.idGenerator.Inc())" || !clientIsRemoting {
+						idsPlain = false
+						st.class = "answerable, NOT from the remoting client's generator"
+					}
+				}
+				sites2 = append(sites2, st)
+				return true
+			})
+		}
+	}
+	seen := map[string]bool{}
+	for _, st := range sites2 {
+		seen[st.fn] = true
+	}
+	for _, fn := range []string{"SendSyncRequest", "SendAsyncRequest"} {
+		if !seen[fn] {
+			bad("GettyRemotingClient.%s builds no RpcMessage", fn)
 			idsPlain = false
 		}
 	}
@@ -347,6 +388,14 @@ func xlateFutures(repo, out string) {
 	sb.WriteString("From Coq Require Import String List.\nFrom SeataV Require Import Remoting.FuturesModel.\nImport ListNotations.\nOpen Scope string_scope.\n\n")
 	fmt.Fprintf(&sb, "Definition go_futures_cfg : cfg :=\n  {| c_cap := %d; c_nonblock := %s; c_tmo_removes := %s; c_store_nocb := %s; c_pong_removes := %s;\n     c_store_first := %s; c_ids_plain := %s |}.\n\n",
 		capN, b(nonblock), b(tmoRemoves), b(storeNocb), b(pongRemoves), b(storeFirst), b(idsPlain))
+	sb.WriteString("(* every site that builds an outgoing RpcMessage: function, id expression, type expression, class *)\nDefinition go_send_sites : list (string * string * string * string) := [")
+	for i, st := range sites2 {
+		if i > 0 {
+			sb.WriteString(";\n  ")
+		}
+		sb.WriteString("(" + coqStr(st.fn) + ", " + coqStr(st.id) + ", " + coqStr(st.typ) + ", " + coqStr(st.class) + ")")
+	}
+	sb.WriteString("].\n\n")
 	sb.WriteString("Definition go_futures_unrecognised : list string := [")
 	for i, u := range unrec {
 		if i > 0 {
